@@ -1,6 +1,8 @@
 #!/bin/sh
 # tools/seed_matrix.sh : run the quick check of every seeded change against a scratch worktree with the change applied;
 # prints for each seed how it is reported (replayed witness vs no-failing-input-found vs missed)
+# PYVC_SNAP: run the checks from a snapshot copy of /verif (so that /verif can be edited meanwhile)
+V=${PYVC_SNAP:-/verif}
 cd /verif
 for d in seeded/*/; do
   name=$(basename $d); prop=$(echo $name | cut -d- -f1)
@@ -8,7 +10,7 @@ for d in seeded/*/; do
   git -C /repo worktree remove --force $wt 2>/dev/null
   git -C /repo worktree add -q --detach $wt HEAD || continue
   if git -C $wt apply /verif/$d/patch.diff 2>/dev/null; then
-    out=$(PYVC_REPO=$wt ./check $prop --tier quick --no-evidence 2>&1)
+    out=$(PYVC_REPO=$wt $V/check $prop --tier quick --no-evidence 2>&1)
     rc=$?
     nv=$(echo "$out" | grep -c "^VIOLATION")
     nf=$(echo "$out" | grep "^VIOLATION" | grep -c "no-failing-input-found")
